@@ -21,7 +21,10 @@ import json
 import os
 import random
 import re
+import shutil
 import subprocess
+import time
+from concurrent.futures import ThreadPoolExecutor
 
 import tlaval
 import vlib
@@ -30,7 +33,7 @@ DEV_ITER = "iterator-enabled-from-template"
 DEV_ERR = "iter-shared-err"
 DEV_MASK = "enabled-error-masked"
 
-INVS = "Inv_Shape Inv_NoDisabled Inv_NoEmpty Inv_Poison Inv_DevErr Inv_DevSame Inv_MaskOnlyErr Inv_Paths Inv_Order Inv_Bound Inv_Complete"
+INVS = "Inv_Shape Inv_NoDisabled Inv_NoEmpty Inv_Poison Inv_DevErr Inv_DevSame Inv_MaskOnlyErr Inv_Paths Inv_Order Inv_Bound Inv_Complete Inv_NestedPerOuter"
 
 
 def tset(xs):
@@ -88,7 +91,9 @@ SLICES_QUICK = [
     ("struct", 3, 2, ["agg", "task"], ["none", "lab", "le"], ["T", "F", "iteq"], ["none"], ["none"], [], False, ["flag"], ["none"]),
     # enabled expressions on variables of several levels, variable ranges, user variables
     ("vars", 3, 2, ["agg", "call"], ["none", "var"], ["T", "flagon"], ["none", "flagit"], ["none"], [], False,
-     ["both", "lst"], ["none", "flagoff"]),
+     ["both"], ["none", "flagoff"]),
+    # enabled expressions on an undefined variable (template error at stage 0)
+    ("enerr", 3, 2, ["agg", "call"], ["none", "lab"], ["T", "flagon"], ["none"], ["none"], [], False, ["lst"], ["none"]),
     # the three kinds of ranges, defined / undefined / overridden / malformed range variable
     ("ranges", 2, 1, ["task"], ["lb", "be12", "be21", "var"], ["T", "itne"], ["none"], ["none"], [], False,
      ["both", "plain"], ["none", "lstb", "lstbad"]),
@@ -98,6 +103,10 @@ SLICES_QUICK = [
     # includes, traits, constraints, channels
     ("extras", 3, 2, ["task", "inc"], ["none", "lab"], ["T"], ["none"], ["none", "hook", "cons", "chan"], ["s2", "s5"], False,
      ["flag"], ["none"]),
+    # nested iterators whose inner range (range expression / begin / end) depends on the OUTER iteration variable:
+    # per outer element a different inner range, of different lengths, one empty
+    ("nested", 3, 2, ["agg", "task"], ["labc", "be02", "dep", "beE", "bBe"], ["T", "iteq"], ["none"], ["none"], [], False,
+     ["cards"], ["none"]),
 ]
 
 SLICES_THOROUGH = [
@@ -114,14 +123,59 @@ SLICES_THOROUGH = [
      ["lst"], ["none", "lstbad"]),
     ("extras3", 3, 2, ["task", "call", "inc"], ["none", "lab", "be21"], ["T"], ["none"],
      ["none", "hook", "cons", "chan"], ["s2", "s5"], False, ["flag"], ["none"]),
+    ("nested3", 3, 2, ["agg", "task"], ["labc", "be03", "dep", "beE", "bBe"], ["T", "iteq", "itne"], ["none"],
+     ["none"], [], False, ["cards", "cardsab"], ["none"]),
+    ("nested4", 4, 3, ["agg", "task"], ["none", "labc", "be02", "dep", "beE", "bBe"], ["T"], ["none"], ["none"], [], False,
+     ["cards"], ["none"]),
     ("incl3", 3, 2, ["agg", "inc"], ["none", "lb"], ["T", "iteq"], ["none", "flagit"], ["none"], ["s1", "s2", "s3", "s5"], False,
      ["flag"], ["none", "flagoff"]),
 ]
 
 # random larger templates (tlc -simulate): everything allowed
-SIM = (7, 3, ALLK, ["none", "lab", "lb", "le", "be12", "be21", "var"], ["T", "F", "flagon", "flagoff", "iteq", "itne"],
+SIM = (7, 3, ALLK, ["none", "lab", "labc", "lb", "le", "be12", "be21", "be02", "var", "dep", "beE", "bBe"], ["T", "F", "flagon", "flagoff", "iteq", "itne"],
        ["none", "flagoff", "flagit"], ["none", "hook", "cons", "chan"], ["s1", "s2", "s3", "s4", "s5", "smissing"], True,
-       ["plain", "flag", "lst", "both"], ["none", "flagoff", "lstb", "lstbad"])
+       ["plain", "flag", "lst", "both", "cards", "cardsab"], ["none", "flagoff", "lstb", "lstbad"])
+
+
+def ptlc(ctx, tag, module, cfg_text, workers=2, extra=None, timeout=1200):
+    """Like ctx.tlc, but with a directory of its own (ptlc_<tag>) so that several TLC runs can go on concurrently."""
+    d = os.path.join(ctx.work, "ptlc_" + tag)
+    os.makedirs(os.path.join(d, "sim"))
+    for f in glob.glob(os.path.join(vlib.SPEC, "WorkflowLoad*.tla")):
+        shutil.copy(f, d)
+    with open(os.path.join(d, "run.cfg"), "w") as fh:
+        fh.write(cfg_text)
+    cmd = ["timeout", str(timeout), "tlc", "-workers", str(workers), "-metadir", os.path.join(d, "md"), "-config", "run.cfg"]
+    cmd += list(extra or []) + [module + ".tla"]
+    e = dict(os.environ)
+    e["JAVA_TOOL_OPTIONS"] = (e.get("JAVA_TOOL_OPTIONS", "") + " -Xss64m").strip()
+    t = time.time()
+    p = subprocess.run(cmd, cwd=d, env=e, stdout=subprocess.PIPE, stderr=subprocess.STDOUT, text=True)
+    r = vlib.TlcResult(p.stdout, p.returncode, time.time() - t)
+    r.dir = d
+    r.tag = tag
+    with open(os.path.join(d, "out.txt"), "w") as fh:
+        fh.write(p.stdout)
+    return r
+
+
+def account(ctx, r, module, what, timeout_ok=False):
+    """Main-thread bookkeeping of a ptlc result (what ctx.model_check does)."""
+    if r.rc == 124:
+        raise vlib.Inconclusive("TLC timeout on %s/%s" % (module, what))
+    if "java.lang.OutOfMemoryError" in r.out or "StackOverflowError" in r.out:
+        raise vlib.Inconclusive("TLC resource failure on %s/%s" % (module, what))
+    if r.crashed or (r.generated == 0 and not r.violated):
+        ctx.save_debug(r, "tlc_%s_%s.txt" % (module, what))
+        raise vlib.Inconclusive("TLC failed on %s/%s (rc=%d): %s" % (module, what, r.rc, vlib.tail(r.out)))
+    ctx.ntlc += 1
+    ctx.states += r.distinct
+    ctx.transitions += r.generated
+    res = "ok" if r.no_error else ("violated:" + ",".join(r.violated) if r.violated else ("deadlock" if r.deadlock else "?"))
+    ctx.model_runs.append({"module": module, "cfg": what, "distinct": r.distinct, "generated": r.generated, "result": res,
+                           "wall_s": round(r.wall, 1)})
+    ctx.log("model %s/%s: %d distinct, %d generated, %s (%.1fs)" % (module, what, r.distinct, r.generated, res, r.wall))
+    return r
 
 
 def states_from_dump(path):
@@ -193,12 +247,36 @@ def run(ctx):
                 "iterator) of the real loader; non-trivial = contains an iterator, a disabled/conditional role, an include or a "
                 "poisoned role; distinct = distinct (T, uv)")
 
+    # All TLC runs of the check (error hand-over models, the exhaustive slices of the template family, the simulation)
+    # and the harness build are independent: they run concurrently, results are consumed below in a fixed order.
+    slices = SLICES_QUICK if quick else SLICES_THOROUGH
+    rp = None
+    if ctx.replay:
+        # --replay <evidence/replays/C15/*.json>: only the recorded template (the tiny slice below just delivers the catalogue)
+        with open(ctx.replay) as fh:
+            rp = json.load(fh)["replay"]
+        slices = [("catalogue", 1, 1, ["task"], ["none"], ["T"], ["none"], ["none"], [], False, ["plain"], ["none"])]
+    nsim = 1 if ctx.replay else (15 if quick else 250)
+    pool = ThreadPoolExecutor(max_workers=max(2, min(nw, 12)))
+    wk = 2 if quick else max(2, min(nw // 2, 6))
+    fut = {}
+    fut["err_a"] = pool.submit(ptlc, ctx, "err_a", "WorkflowLoadErr", cfg_err(2, [1], shared), 2)
+    fut["err_agg"] = pool.submit(ptlc, ctx, "err_agg", "WorkflowLoadErr", cfg_err(2, [1, 2], False), 2)
+    if not quick:
+        fut["err_b"] = pool.submit(ptlc, ctx, "err_b", "WorkflowLoadErr", cfg_err(3, [1, 3], shared), 2)
+        fut["err_c"] = pool.submit(ptlc, ctx, "err_c", "WorkflowLoadErr", cfg_err(3, [2], False), 2)
+    for sl in slices:
+        fut["slice_" + sl[0]] = pool.submit(ptlc, ctx, "slice_" + sl[0], "WorkflowLoadGen", cfg_gen(*sl[1:]), wk, ["-dump", "states"])
+    fut["sim"] = pool.submit(ptlc, ctx, "sim", "WorkflowLoadGen", cfg_gen(*SIM, invs=False), 1,
+                             ["-simulate", "file=sim/b,num=%d" % nsim, "-depth", str(SIM[0] + 1), "-seed", str(ctx.seed * 104729 + 17)])
+    fut["build"] = pool.submit(ctx.build, "wfload")
+
     # 1. schedule-dependent part: error hand-over of concurrently processed children
     predicted = None
-    r = ctx.model_check("WorkflowLoadErr", None, cfg_text=cfg_err(2, [1], shared), workers=min(nw, 4))
+    r = account(ctx, fut["err_a"].result(), "WorkflowLoadErr", "N=2,Fails={1},SharedErr=%s" % shared)
     if not quick:
-        r3 = ctx.model_check("WorkflowLoadErr", None, cfg_text=cfg_err(3, [1, 3], shared), workers=min(nw, 4))
-        ctx.model_check("WorkflowLoadErr", None, cfg_text=cfg_err(3, [2], False), workers=min(nw, 4))
+        r3 = account(ctx, fut["err_b"].result(), "WorkflowLoadErr", "N=3,Fails={1,3},SharedErr=%s" % shared)
+        account(ctx, fut["err_c"].result(), "WorkflowLoadErr", "N=3,Fails={2},SharedErr=False")
         if r3.violated and not r.violated:
             r = r3
     if r.violated:
@@ -213,7 +291,9 @@ def run(ctx):
         # replayed as schedule "first:K" (for every K): child K's ProcessTemplates returns first, its siblings' return
         # next, then child K reads the shared err - imposed with gates on wl.iter.child.start / wl.iter.child.done
     # the aggregator path (goroutine-local err, racy Append) must be fine in any case
-    ctx.model_check("WorkflowLoadErr", None, cfg_text=cfg_err(2, [1, 2], False), workers=min(nw, 4))
+    ragg = account(ctx, fut["err_agg"].result(), "WorkflowLoadErr", "N=2,Fails={1,2},SharedErr=False")
+    if not ragg.no_error:
+        raise vlib.Inconclusive("WorkflowLoadErr with goroutine-local err violates %s (the model is wrong)" % ragg.violated)
 
     # 2. the template family: exhaustive slices + random larger templates
     cases = {}
@@ -226,16 +306,9 @@ def run(ctx):
             origin[key] = org
 
     subs = None
-    slices = SLICES_QUICK if quick else SLICES_THOROUGH
-    if ctx.replay:
-        # --replay <evidence/replays/C15/*.json>: only the recorded template (the tiny slice below just delivers the catalogue)
-        with open(ctx.replay) as fh:
-            rp = json.load(fh)["replay"]
-        slices = [("catalogue", 1, 1, ["task"], ["none"], ["T"], ["none"], ["none"], [], False, ["plain"], ["none"])]
     for sl in slices:
         name = sl[0]
-        r = ctx.model_check("WorkflowLoadGen", None, cfg_text=cfg_gen(*sl[1:]), workers=min(nw, 8) if not quick else min(nw, 4),
-                            extra=["-dump", "states"], timeout=1200)
+        r = account(ctx, fut["slice_" + name].result(), "WorkflowLoadGen", "slice:" + name)
         if not r.no_error:
             ctx.save_debug(r, "tlc_gen_%s.txt" % name)
             raise vlib.Inconclusive("sanity invariant of Load violated on slice %s: %s (the model is wrong)" % (name, r.violated))
@@ -251,18 +324,26 @@ def run(ctx):
             add_case(st, "slice:" + name)
         ctx.log("slice %s: %d templates" % (name, len(sts)))
         os.remove(os.path.join(r.dir, "states.dump"))
-    nsim = 50 if quick else 250
     if ctx.replay:
         cases.clear()
         add_case({"T": rp["T"], "uv": rp["uv"]}, "replay")
-        nsim = 1
-    behs = ctx.simulate("WorkflowLoadGen", None, nsim, SIM[0] + 1, cfg_text=cfg_gen(*SIM, invs=False), seed=ctx.seed * 104729 + 17)
+    rs = fut["sim"].result()
+    if rs.rc == 124:
+        raise vlib.Inconclusive("TLC simulation timeout")
+    behs = []
+    for f in sorted(glob.glob(os.path.join(rs.dir, "sim", "b_*")), key=vlib._natkey):
+        with open(f) as fh:
+            behs.append(tlaval.parse_simfile(fh.read()))
+    if not behs:
+        ctx.save_debug(rs, "tlc_sim_WorkflowLoadGen.txt")
+        raise vlib.Inconclusive("TLC simulation of WorkflowLoadGen produced no behaviours: %s" % vlib.tail(rs.out))
+    ctx.ntlc += 1
     nb = len(cases)
     for b in behs:
         for (a, args, st) in b[1:]:
             if not ctx.replay:
                 add_case(st, "simulate")
-    ctx.log("simulate: %d behaviours, %d new templates" % (len(behs), len(cases) - nb))
+    ctx.log("simulate: %d behaviours, %d new templates (%.1fs)" % (len(behs), len(cases) - nb, rs.wall))
     ctx.extra["exhaustive_slices"] = [m for m in ctx.model_runs if m["module"] == "WorkflowLoadGen"]
 
     scen = []
@@ -275,11 +356,12 @@ def run(ctx):
     keys = list(cases.keys())
 
     # 3. the real loader
-    binp = ctx.build("wfload")
+    binp = fut["build"].result()
+    pool.shutdown()
     hdr = {"catalogue": True, "subs": subs, "probe": ["flag", "it", "jt"]}
     scn_file = ctx.path("scenarios.ndjson")
     ctx.write_ndjson(scn_file, [hdr] + scen)
-    shards = max(1, min(nw, 8 if quick else 16))
+    shards = max(1, min(nw, 16))
 
     def run_driver(binary, scn_path, tag, env=None, ok_codes=(0,)):
         procs = []
